@@ -31,12 +31,13 @@ def rows(idx, nlines=2):
     for n in range(0, nlines + 1):
         lines = [Residual(f"L{i}") for i in range(n)]
         it = Interp(idx, types={"self": "CsvPath"}, unknown_calls="residual",
-                    domains={"self.will_run": [True, False], "self.collecting": [False, True], "self.unmatched_available": [False, True],
-                             "self.scanner": [Obj("scanner")], "self._next_line()": [lines],
-                             "self.line_monitor.physical_end_line_count": [None, 0, 3]},
+                    domains={"self.scanner": [Obj("scanner")], "self._next_line()": [lines]},
                     handlers={"self._consider_line": consider, "self.limit_collection": limit, "self.finalize": fin,
                               "self.unmatched.append": unm_append, "len": lambda i, c, r, a, k: 1})
         store = {"self.stopped": False, "self.unmatched": None}
-        for p in it.run_all(fi, args={"csvpath": None}, store=store):
+        eager = {"self.will_run": [True, False], "self.collecting": [False, True], "self.unmatched_available": [False, True],
+                 "self.line_monitor.physical_end_line_count": [None, 0, 3]}
+        for p in it.run_eager(fi, eager, args={"csvpath": None}, store=store):
+            p.choices = list(p.cfg.items()) + list(p.choices)
             out.append((n, p))
     return fi, out
